@@ -48,7 +48,12 @@ def run(ctx):
         corr_fail_lines = []
         total = None
         for t in tiers:
-            rc, out, dt = vlib.sh([ctx.bin("pure"), "txindex", cases], env={"VERIF_TIER": t, "VERIF_SEED": str(ctx.seed)}, timeout=3000)
+            widened = (t == "thorough" and not thorough)
+            rc, out, dt = vlib.sh([ctx.bin("pure"), "txindex", cases], env={"VERIF_TIER": t, "VERIF_SEED": str(ctx.seed)},
+                                  timeout=(600 if widened else 3000))
+            if rc == 124 and widened:
+                ctx.notes.append("widened search for a failing input stopped after its 10 minute budget")
+                break
             if rc != 0:
                 ctx.broken.append({"kind": "correspondence", "what": "txindex harness failed", "detail": out[-800:]})
                 break
